@@ -503,3 +503,239 @@ Proof.
   - now apply Sub_new_in_section.
   - eapply Forall_impl; [|exact H2]. intros o Ho r Hr. apply Sub_new_in_section. now apply Ho.
 Qed.
+
+(* ------------------------------------------------------------------ views *)
+Lemma bytes_length c : Inv c -> N.of_nat (length (bytes c)) = len c.
+Proof. unfold Inv, blen, bytes. intros H. now apply view_of_length_in. Qed.
+
+Lemma bytes_is_view c : Inv c -> is_view (buf c) (off c) (bytes c).
+Proof. unfold Inv, blen, bytes. intros H. now apply view_of_is_view. Qed.
+
+Lemma bytes_adv c n : n <= len c -> bytes (adv c n) = skipn (N.to_nat n) (bytes c).
+Proof. intros H. unfold bytes, adv, with_win; cbn. symmetry. now apply skipn_view. Qed.
+
+Lemma bytes_win c n : n <= len c -> bytes (with_win c (off c) n) = firstn (N.to_nat n) (bytes c).
+Proof. intros H. unfold bytes, with_win; cbn. symmetry. now apply firstn_view. Qed.
+
+Lemma bytes_split c n :
+  n <= len c -> bytes c = bytes (with_win c (off c) n) ++ bytes (adv c n).
+Proof.
+  intros H. rewrite bytes_win, bytes_adv by exact H. symmetry. apply firstn_skipn.
+Qed.
+
+Lemma Sub_view_in r c :
+  Inv r -> Sub r c ->
+  is_view (buf r) (off c) (bytes c) /\ N.of_nat (length (bytes c)) = len c.
+Proof.
+  intros HI HS. pose proof (Sub_Inv _ _ HI HS) as HIc.
+  destruct HS as (H1 & _). rewrite <- H1. split; [now apply bytes_is_view | now apply bytes_length].
+Qed.
+
+(* everything a call hands back is a run of bytes of the section inside the old window *)
+Lemma spec_read_un_nobytes be c w f :
+  (forall v bs, f v <> VBytes bs) ->
+  forall bs, snd (spec_read_un be c w f) <> Ok (VBytes bs).
+Proof.
+  intros Hf bs. unfold spec_read_un. destruct (len c <? N.of_nat w); cbn; [discriminate|].
+  intros [= H]. now apply Hf in H.
+Qed.
+
+Lemma returned_bytes_lemma dbg be root c op bs :
+  Inv c -> snd (step dbg be root c op) = Ok (VBytes bs) ->
+  exists o, off c <= o /\ o + N.of_nat (length bs) <= off c + len c /\ is_view (buf c) o bs.
+Proof.
+  intros HI. rewrite step_spec.
+  assert (Hall : exists o, off c <= o /\ o + N.of_nat (length (bytes c)) <= off c + len c
+                           /\ is_view (buf c) o (bytes c)).
+  { exists (off c). rewrite bytes_length by exact HI. repeat split; try lia. now apply bytes_is_view. }
+  assert (HN : forall v x, @VNum cur v <> VBytes x) by discriminate.
+  assert (HR : forall (x : res N) y, rmap (@VNum cur) x <> Ok (VBytes y))
+    by (intros [?|?| |] y; cbn; discriminate).
+  assert (HO : forall (x : res (option N)) y, rmap (@VOpt cur) x <> Ok (VBytes y))
+    by (intros [?|?| |] y; cbn; discriminate).
+  destruct op; cbn [spec_step];
+    repeat match goal with |- context [if ?g then _ else _] => destruct g eqn:? end;
+    try (intros H; exfalso; revert H; apply spec_read_un_nobytes; discriminate);
+    cbn [snd]; try discriminate;
+    try (intros H; exfalso; revert H; first [apply HO | apply HR]);
+    try (destruct (position _ (bytes c)); cbn [snd]; discriminate).
+  all: intros [= <-]; try exact Hall.
+  (* read_slice *)
+  exists (off c). unfold Inv, blen in HI.
+  rewrite view_of_length_in by lia. repeat split; try lia. apply view_of_is_view; lia.
+Qed.
+
+Lemma view_correct_lemma dbg be root c op c' r :
+  Inv c -> step dbg be root c op = (c', r) ->
+  (* the reader afterwards: same section, window inside the old one, its bytes are the section's *)
+  (Sub c c' /\ is_view (buf c) (off c') (bytes c') /\ N.of_nat (length (bytes c')) = len c') /\
+  (* a returned reader: likewise, at its reported offset and length *)
+  (forall x, r = Ok (VRd x) ->
+     Sub c x /\ is_view (buf c) (off x) (bytes x) /\ N.of_nat (length (bytes x)) = len x) /\
+  (* returned bytes occur in the section inside the old window *)
+  (forall bs, r = Ok (VBytes bs) ->
+     exists o, off c <= o /\ o + N.of_nat (length bs) <= off c + len c /\ is_view (buf c) o bs).
+Proof.
+  intros HI E.
+  destruct (step_Sub dbg be root c op) as [H1 H2]. rewrite E in H1, H2. cbn [fst snd] in H1, H2.
+  split; [|split].
+  - split; [exact H1 | now apply Sub_view_in].
+  - intros x ->. specialize (H2 x eq_refl). split; [exact H2 | now apply Sub_view_in].
+  - intros bs ->. apply (returned_bytes_lemma dbg be root c op bs HI). now rewrite E.
+Qed.
+
+Lemma split_exact_lemma dbg be root c n :
+  (n <= len c ->
+   exists x c', step dbg be root c (CSplit n) = (c', Ok (VRd x)) /\
+     off x = off c /\ len x = n /\ off c' = off c + n /\ len c' = len c - n /\
+     bytes c = bytes x ++ bytes c') /\
+  (len c < n -> step dbg be root c (CSplit n) = (c, Err EUnexpectedEof)).
+Proof.
+  rewrite step_spec. cbn [spec_step]. split; intros H.
+  - assert (E : (len c <? n) = false) by lia. rewrite E.
+    exists (with_win c (off c) n), (adv c n). repeat split. now apply bytes_split.
+  - assert (E : (len c <? n) = true) by lia. now rewrite E.
+Qed.
+
+(* ------------------------------------------------------------------ reads = the list-level codecs of Prim.v *)
+Lemma take_eq n (l : list byte) :
+  take n l = if Nat.ltb (length l) n then None else Some (firstn n l, skipn n l).
+Proof.
+  revert l; induction n as [|n IH]; intros l; cbn [take]; [reflexivity|].
+  destruct l as [|x l]; [reflexivity|]. rewrite IH. cbn [length firstn skipn].
+  change (Nat.ltb (S (length l)) (S n)) with (Nat.ltb (length l) n).
+  destruct (Nat.ltb (length l) n); reflexivity.
+Qed.
+
+Lemma prim_read_un_eq w be (l : list byte) :
+  Prim.read_un w be l =
+  if Nat.ltb (length l) w then Err EUnexpectedEof
+  else Ok (val_of be (firstn w l), skipn w l).
+Proof.
+  unfold Prim.read_un, read_bytes. rewrite take_eq.
+  destruct (Nat.ltb (length l) w); reflexivity.
+Qed.
+
+(* [st] is what the list-level parser [p] does on the bytes of [c] *)
+Definition refines_prim {A} (p : list byte -> res (A * list byte)) (inj : A -> oval cur -> Prop)
+           (c : cur) (st : cur * res (oval cur)) : Prop :=
+  match p (bytes c) with
+  | Ok (a, rest) => exists c' v, st = (c', Ok v) /\ inj a v /\ bytes c' = rest /\ Sub c c'
+  | Err e => st = (c, Err e)
+  | Panic => st = (c, Panic)
+  | OutOfFuel => False
+  end.
+
+Lemma spec_read_un_refines be c w (f : N -> oval cur) :
+  Inv c ->
+  refines_prim (Prim.read_un w be) (fun a v => v = f a) c (spec_read_un be c w f).
+Proof.
+  intros HI. unfold refines_prim, spec_read_un. rewrite prim_read_un_eq.
+  pose proof (bytes_length c HI) as HL.
+  destruct (len c <? N.of_nat w) eqn:E.
+  - assert (E' : Nat.ltb (length (bytes c)) w = true) by lia. now rewrite E'.
+  - assert (E' : Nat.ltb (length (bytes c)) w = false) by lia. rewrite E'.
+    exists (adv c (N.of_nat w)), (f (val_of be (view_of (buf c) (off c) (N.of_nat w)))).
+    split; [reflexivity|]. split; [|split].
+    + f_equal. f_equal. rewrite <- (firstn_view (buf c) (off c) (len c) (N.of_nat w)) by lia.
+      now rewrite Nat2N.id.
+    + rewrite bytes_adv by lia. now rewrite Nat2N.id.
+    + apply adv_Sub. lia.
+Qed.
+
+Lemma read_un_refines_lemma dbg be root c w :
+  Inv c ->
+  refines_prim (Prim.read_un w be) (fun a v => v = VNum a) c (step dbg be root c (CReadUn w)).
+Proof. intros HI. rewrite step_spec. now apply spec_read_un_refines. Qed.
+
+Lemma refines_prim_map {A B} (p : list byte -> res (A * list byte)) (g : A -> B)
+      (inj : B -> oval cur -> Prop) c st :
+  refines_prim p (fun a v => inj (g a) v) c st ->
+  refines_prim (fun l => let* (a, t) := p l in Ok (g a, t)) inj c st.
+Proof.
+  unfold refines_prim. destruct (p (bytes c)) as [[a t]|e| |]; cbn; auto.
+Qed.
+
+Lemma read_in_refines_lemma dbg be root c w :
+  Inv c ->
+  refines_prim (Prim.read_in w be) (fun a v => v = VInt a) c (step dbg be root c (CReadIn w)).
+Proof.
+  intros HI. rewrite step_spec. cbn [spec_step]. unfold Prim.read_in.
+  apply (refines_prim_map (Prim.read_un w be) (to_signed (8 * N.of_nat w)) (fun a v => v = VInt a)).
+  now apply (spec_read_un_refines be c w (fun v => VInt (to_signed (8 * N.of_nat w) v))).
+Qed.
+
+Lemma read_uint_refines_lemma dbg be root c n :
+  Inv c ->
+  refines_prim (Prim.read_uint n be) (fun a v => v = VNum a) c (step dbg be root c (CReadUint n)).
+Proof.
+  intros HI. rewrite step_spec. cbn [spec_step]. unfold Prim.read_uint, refines_prim.
+  destruct (Nat.ltb 8 n); [reflexivity|]. now apply spec_read_un_refines.
+Qed.
+
+Lemma read_address_refines_lemma dbg be root c size :
+  Inv c ->
+  refines_prim (Prim.read_address size be) (fun a v => v = VNum a) c
+               (step dbg be root c (CReadAddress size)).
+Proof.
+  intros HI. rewrite step_spec. cbn [spec_step]. unfold Prim.read_address.
+  destruct (size =? 1); [now apply spec_read_un_refines|].
+  destruct (size =? 2); [now apply spec_read_un_refines|].
+  destruct (size =? 4); [now apply spec_read_un_refines|].
+  destruct (size =? 8); [now apply spec_read_un_refines|]. reflexivity.
+Qed.
+
+Lemma read_sized_offset_refines_lemma dbg be root c size :
+  Inv c ->
+  refines_prim (Prim.read_sized_offset size be) (fun a v => v = VNum a) c
+               (step dbg be root c (CReadSizedOffset size)).
+Proof.
+  intros HI. rewrite step_spec. cbn [spec_step]. unfold Prim.read_sized_offset.
+  destruct (size =? 1); [now apply spec_read_un_refines|].
+  destruct (size =? 2); [now apply spec_read_un_refines|].
+  destruct (size =? 4); [now apply spec_read_un_refines|].
+  destruct (size =? 8); [now apply spec_read_un_refines|]. reflexivity.
+Qed.
+
+Lemma read_word_refines_lemma dbg be root c f :
+  Inv c ->
+  refines_prim (Prim.read_word f be) (fun a v => v = VNum a) c (step dbg be root c (CReadOffset f)) /\
+  refines_prim (Prim.read_word f be) (fun a v => v = VNum a) c (step dbg be root c (CReadLength f)).
+Proof.
+  intros HI. rewrite !step_spec. cbn [spec_step]. unfold Prim.read_word.
+  destruct f; split; now apply spec_read_un_refines.
+Qed.
+
+Lemma b2n_x00 : b2n x00 = 0.
+Proof. reflexivity. Qed.
+
+Lemma prim_read_cstr_eq (l : list byte) :
+  Prim.read_cstr l =
+  match position x00 l with
+  | Some i => Ok (firstn (N.to_nat i) l, skipn (N.to_nat (i + 1)) l)
+  | None => Err EUnexpectedEof
+  end.
+Proof.
+  induction l as [|x l IH]; cbn [Prim.read_cstr position]; [reflexivity|].
+  rewrite b2n_x00. destruct (b2n x =? 0).
+  - reflexivity.
+  - rewrite IH. destruct (position x00 l) as [i|]; cbn; [|reflexivity].
+    replace (N.to_nat (N.succ i)) with (S (N.to_nat i)) by lia.
+    replace (N.to_nat (N.succ i + 1)) with (S (N.to_nat (i + 1))) by lia.
+    reflexivity.
+Qed.
+
+Lemma read_cstr_refines_lemma dbg be root c :
+  Inv c ->
+  refines_prim Prim.read_cstr (fun s v => exists x, v = VRd x /\ bytes x = s /\ off x = off c) c
+               (step dbg be root c CReadCstr).
+Proof.
+  intros HI. rewrite step_spec. cbn [spec_step]. unfold refines_prim. rewrite prim_read_cstr_eq.
+  destruct (position x00 (bytes c)) as [i|] eqn:P; [|reflexivity].
+  pose proof (position_lt _ _ _ P) as Hlt. rewrite (bytes_length c HI) in Hlt.
+  exists (adv c (i + 1)), (VRd (with_win c (off c) i)).
+  split; [reflexivity|]. split; [|split].
+  - exists (with_win c (off c) i). split; [reflexivity|]. split; [|reflexivity]. apply bytes_win. lia.
+  - apply bytes_adv. lia.
+  - apply adv_Sub. lia.
+Qed.
